@@ -367,7 +367,7 @@ func TestDirSCC(t *testing.T) {
 		}
 		return sccCase{G: g, Q: uint64(i)}
 	}, checkSCC)
-	vk.Run(t, "dir-scc", vk.Opts{Quick: 5000, Thorough: 150000, NoCrumb: true}, func(t *rapid.T) sccCase {
+	vk.Run(t, "dir-scc", vk.Opts{Quick: 8000, Thorough: 150000, NoCrumb: true}, func(t *rapid.T) sccCase {
 		g := drawG(t, true, 40, dirClasses, []int{contOrdered, contOrdered, contSimple, contMulti})
 		return sccCase{G: g, Q: rapid.Uint64().Draw(t, "q")}
 	}, checkSCC)
@@ -529,7 +529,7 @@ func (m *M) nodeIdxOrdered(ns []graph.Node) ([]int, bool) { return m.nodeIdx(ns)
 func TestDirCycles(t *testing.T) {
 	blocks, total := exhPlan(true, vk.Pick(3, 4))
 	vk.Enumerate(t, "dir-cycles-exh", total, func(i int) cycCase { return cycCase{exhG(true, blocks, i)} }, checkDirCycles)
-	vk.Run(t, "dir-cycles", vk.Opts{Quick: 4000, Thorough: 120000}, func(t *rapid.T) cycCase {
+	vk.Run(t, "dir-cycles", vk.Opts{Quick: 6000, Thorough: 120000}, func(t *rapid.T) cycCase {
 		// Dense classes stay at <= 7 nodes (the complete digraph on 7 nodes has
 		// 2365 elementary cycles); the sparse-like classes go to 40 nodes.
 		if rapid.IntRange(0, 2).Draw(t, "small") > 0 {
